@@ -86,6 +86,9 @@ def native_env(api):
     for name, p in api.PRIMS.items():
         if p.native is not None:
             env[name] = p.native
+    env['removed'] = lambda m, k: {a: b for a, b in m.items() if a != k}
+    env['updated'] = lambda m, k, v: {**m, k: v}
+    env['keys'] = lambda m: list(m)
     env['is_prefix'] = lambda a, b: list(b[:len(a)]) == list(a)
     env['implies'] = implies
     env['val'] = val
